@@ -24,6 +24,7 @@ func (r *Reader) ReadMetadata() (err error) {
 		b.close()
 	case typeUUID:
 		err = r.readUUIDBox(&b)
+		b.close()
 	default:
 		if logLevelInfo() {
 			logInfo().Object("box", b).Send()
@@ -50,10 +51,13 @@ func (r *Reader) readMdat(b *box) (err error) {
 		if logLevelError() {
 			logError().Object("box", inner).Err(err).Send()
 		}
+		// the item is not in this box: skip the box, the next call starts at the next one
+		b.close()
 		return
 	}
 	header, err := readExifHeader(&inner, ifds.IFD0, imagetype.ImageHEIF)
 	if err != nil {
+		b.close()
 		return err
 	}
 
@@ -73,7 +77,9 @@ func (r *Reader) readMdat(b *box) (err error) {
 }
 
 func (r *Reader) newExifBox(b *box) (inner box, err error) {
-	if _, err = b.Discard(int(r.heic.exif.ol.offset) - b.offset - 16); err != nil {
+	// The item's offset is counted from the start of the file; the reader stands
+	// behind the header of this mdat box, which has 8 or 16 bytes.
+	if _, err = b.Discard(int(r.heic.exif.ol.offset) - (b.offset + int(b.size) - b.remain)); err != nil {
 		return
 	}
 	buf, err := b.Peek(16)
@@ -108,7 +114,7 @@ func readExifHeader(b *box, firstIfd ifds.IfdType, it imagetype.ImageType) (head
 		return
 	}
 	endian := utils.BinaryOrder(buf[:4])
-	header = meta.NewExifHeader(endian, endian.Uint32(buf[4:8]), 0, uint32(b.remain), imagetype.ImageCR3)
+	header = meta.NewExifHeader(endian, endian.Uint32(buf[4:8]), 0, uint32(b.remain), it)
 	header.FirstIfd = firstIfd
 	if logLevelInfo() {
 		logInfo().Object("box", b).Object("header", header).Send()
